@@ -106,8 +106,8 @@ struct subchroma_image_deref_fn
             >;
 
         plane_locator_t y = _y_locator.xy_at( p );
-        plane_locator_t v = _v_locator.xy_at( p.x / scaling_factors_t::ss_X, p.y / scaling_factors_t::ss_X );
-        plane_locator_t u = _u_locator.xy_at( p.x / scaling_factors_t::ss_X, p.y / scaling_factors_t::ss_X );
+        plane_locator_t v = _v_locator.xy_at( p.x / scaling_factors_t::ss_X, p.y / scaling_factors_t::ss_Y );
+        plane_locator_t u = _u_locator.xy_at( p.x / scaling_factors_t::ss_X, p.y / scaling_factors_t::ss_Y );
 
         return value_type( at_c< 0 >( *y )
                          , at_c< 0 >( *v )
